@@ -10,6 +10,9 @@ from .. import sweepprops as S
 
 LEVEL = 'proof'
 NEEDS = ['CorrIdentifyGen', 'CorrIdentifyGenMB', 'PyRt', 'IdentifyGenLemmas', 'IdentifyGenConf', 'IdentifyGenMB', 'IdentifyGenMBProofs', 'SFIdentify', 'Extracted', 'SourceFacts', 'Bridge', 'BridgeProofs', 'Base', 'Digraph', 'DSep', 'DSepProofs', 'Markov', 'MarkovProofs', 'CorrDag']
+# the code translated from the source on every run: when the translator REFUSES the current source the run falls back to the
+# hand-written model and its correspondence (harness/main.py)
+GEN_SOFT = dict(generated=['IdentifyGenConf', 'IdentifyGenMB'], modules=['CorrIdentifyGenMB', 'IdentifyGenConf', 'IdentifyGenMB', 'IdentifyGenMBProofs'])
 TYPES = ['->', '<>', '--']
 
 
